@@ -126,6 +126,9 @@ __CPROVER_ensures((IS(LL_UNKNOWN_RSP, 2) || IS(LL_REJECT_IND, 2) || IS(LL_REJECT
 __CPROVER_ensures((HDR_LLID == 3 && OPCODE == LL_UNKNOWN_RSP) ==> NO_RESPONSE)
 /* the rejected / unknown procedure was the own connection parameter request: it is no longer waited for */
 __CPROVER_ensures(((IS(LL_REJECT_IND, 2) || ((IS(LL_UNKNOWN_RSP, 2) || IS(LL_REJECT_EXT_IND, 3)) && W_pdu[3] == LL_CONNECTION_PARAM_REQ))) ==> self->procedure_timeout_ == 0)
+/* ... and only then: the 40 s response time out of a running procedure is cleared by nothing else here but the first LL_VERSION_IND (frame) */
+#define CLEARS_TIMEOUT (IS(LL_REJECT_IND, 2) || ((IS(LL_UNKNOWN_RSP, 2) || IS(LL_REJECT_EXT_IND, 3)) && W_pdu[3] == LL_CONNECTION_PARAM_REQ) || (IS(LL_VERSION_IND, 6) && !W_version_received))
+__CPROVER_ensures(!CLEARS_TIMEOUT ==> (self->procedure_timeout_ == W_timeout && self->connection_parameters_request_running_ == W_cpr_running && self->connection_parameters_request_use_signaling_channel_ == W_cpr_sc))
 /* requests decided elsewhere: connection parameter request (its own handler decides about the answer), encryption (C28), PHY */
 __CPROVER_ensures(IS(LL_CONNECTION_PARAM_REQ, 24) ==> (G_l.cpr_calls == 1 && G_l.commits == (W_cpr_commit ? 1 : 0)))
 __CPROVER_ensures(ELSE_CHAIN ==> (G_l.enc_calls == 1 && (W_enc_handled ? (G_l.phy_calls == 0 && G_l.commits == (W_enc_commit ? 1 : 0)) : (G_l.phy_calls == 1 && (W_phy_handled ==> G_l.commits == (W_phy_commit ? 1 : 0))))))
